@@ -17,7 +17,7 @@ Spec side (no builder, no Loop, no waveform classes):
 
 Repaired behaviour modelled (see fixes/): PF-01 (`TableWaveform._validate_input` uses `next_interp`),
 PF-02 (zero length linear segment takes the end value), PF-03 (`reverse_inplace` mirrors about
-`body_duration`).  PF-11 (`ParallelChannelPulseTemplate` chains `(global, parallel)`) is modelled as the
+`body_duration`), PF-04 (C08's repair: the last piece of a sequence / repetition waveform is right-closed).  PF-11 (`ParallelChannelPulseTemplate` chains `(global, parallel)`) is modelled as the
 code has it.
 -/
 namespace QP.PT
@@ -126,6 +126,12 @@ def checkedInt (x : Rat) : Option Int :=
   let d := x - r
   let ad := if 0 ≤ d then d else -d
   if ad > 1/1000000 then none else some r
+
+/-- `checked_int_cast` raising `e` -/
+def intOrErr (x : Rat) (e : Err) : Except Err Int :=
+  match checkedInt x with
+  | some a => .ok a
+  | none => .error e
 
 /-! ## Template syntax -/
 
@@ -264,9 +270,9 @@ def Chain.apply (T : Chain) (data : List (Chan × Option Rat)) : List (Chan × O
 def Chain.outChans (T : Chain) (cs : List Chan) : List Chan :=
   T.foldl (fun c t => t.outChans c) cs
 
-/-- `is_constant_invariant`: single transformations with numeric values are; `ChainedTransformation`
-inherits the default `False` -/
-def Chain.constInvariant (T : Chain) : Bool := T.length == 1
+/-- `is_constant_invariant`: offset / scaling / parallel transformations with numeric (time independent)
+values are, and a `ChainedTransformation` is if all its members are -/
+def Chain.constInvariant (T : Chain) : Bool := T.all (fun _ => true)
 
 /-! ## Waveforms -/
 
@@ -363,10 +369,14 @@ def Wf.sample : Wf → Chan → Rat → Option Rat
   | .multi subs, ch, t => Wf.sampleMulti subs ch t
   | .seq subs, ch, t => Wf.sampleSeq subs ch t
   | .rep body n, ch, t =>
+      -- every repetition owns `[k*d, (k+1)*d)`, the last one `[(n-1)*d, n*d]` (PF-04 repaired)
       let d := body.duration
       if d ≤ 0 then none else
       let k := (t / d).floor
-      if k < 0 ∨ (n : Int) ≤ k then none else body.sample ch (t - k * d)
+      if k < 0 then none
+      else if k < (n : Int) then body.sample ch (t - k * d)
+      else if 0 < n ∧ t = d * n then body.sample ch d
+      else none
   | .trafo inner T, ch, t =>
       match (T.apply (Wf.sampleAll inner inner.channels t)).lookup ch with
       | some v => v
@@ -386,10 +396,13 @@ def Wf.sample : Wf → Chan → Rat → Option Rat
 def Wf.sampleMulti : List Wf → Chan → Rat → Option Rat
   | [], _, _ => none
   | w :: ws, ch, t => if w.channels.contains ch then w.sample ch t else Wf.sampleMulti ws ch t
-/-- `SequenceWaveform.unsafe_sample`: every piece owns `[start, end)` -/
+/-- `SequenceWaveform.unsafe_sample`: every piece owns `[start, end)`, the last one `[start, end]`
+(PF-04 repaired) -/
 def Wf.sampleSeq : List Wf → Chan → Rat → Option Rat
   | [], _, _ => none
-  | w :: ws, ch, t => if t < w.duration then w.sample ch t else Wf.sampleSeq ws ch (t - w.duration)
+  | [w], ch, t => if t ≤ w.duration then w.sample ch t else none
+  | w :: w' :: ws, ch, t =>
+      if t < w.duration then w.sample ch t else Wf.sampleSeq (w' :: ws) ch (t - w.duration)
 def Wf.sampleAll : Wf → List Chan → Rat → List (Chan × Option Rat)
   | _, [], _ => []
   | w, c :: cs, t => (c, w.sample c t) :: Wf.sampleAll w cs t
@@ -776,8 +789,11 @@ def updatedCm (inner : List (Chan × Option Chan)) (outer : List (Chan × Option
     | some o => do let r ← chanLookup outer o; pure (k, r))
 
 /-- `MappingPulseTemplate.map_parameter_values` (used when the mapping template is part of an atomic
-template): constraints, then *all* mapped values, eagerly, into a plain dictionary -/
+template): external parameters present, constraints, then *all* mapped values, eagerly, into a plain dictionary -/
 def mapParameterValues (pm : List (String × Expr)) (cons : List Expr) (σ : Scope) : Except Err Scope := do
+  -- `_validate_parameters`: every external parameter must be a key of the scope (no evaluation yet)
+  (pm.flatMap (fun (_, e) => e.vars) ++ cons.flatMap Expr.vars).forM (fun x =>
+    if σ.keys.contains x then pure () else .error .parameterMissing)
   validateCons cons σ.look
   let kv ← pm.mapM (fun (p, e) => do let v ← σ.eval e; pure (p, v))
   pure (.dict kv)
@@ -1076,11 +1092,11 @@ def internal : PT → Ctx → Except Err (List Item)
   | .forLoop _ body idx start stop step meas cons, ctx => do
       validateCons cons ctx.scope.look
       let a ← ctx.scope.eval start
-      let a ← match checkedInt a with | some a => pure a | none => .error .valueError
+      let a ← intOrErr a .valueError
       let b ← ctx.scope.eval stop
-      let b ← match checkedInt b with | some b => pure b | none => .error .valueError
+      let b ← intOrErr b .valueError
       let s ← ctx.scope.eval step
-      let s ← match checkedInt s with | some s => pure s | none => .error .valueError
+      let s ← intOrErr s .valueError
       if s = 0 then .error .valueError else do
       let ms ← getMeas meas ctx.scope.look ctx.mm
       let items ← (pyRange a b s).flatMapM (fun (i : Int) =>
@@ -1399,11 +1415,11 @@ def denote : PT → Scope → List (MName × Option MName) → List (Chan × Opt
   | .forLoop _ body idx start stop step meas cons, σ, mm, cm => do
       validateCons cons σ.look
       let a ← σ.eval start
-      let a ← match checkedInt a with | some a => pure a | none => .error .valueError
+      let a ← intOrErr a .valueError
       let b ← σ.eval stop
-      let b ← match checkedInt b with | some b => pure b | none => .error .valueError
+      let b ← intOrErr b .valueError
       let s ← σ.eval step
-      let s ← match checkedInt s with | some s => pure s | none => .error .valueError
+      let s ← intOrErr s .valueError
       if s = 0 then .error .valueError else do
       let ms ← getMeas meas σ.look mm
       let parts ← (pyRange a b s).mapM (fun (i : Int) => denote body (.range σ idx (i : Rat)) mm cm)
@@ -1476,6 +1492,20 @@ def denoteTop (pt : PT) (params : List (String × Rat)) (mm : Option (List (MNam
   let ctx ← topCtx pt params mm cmUser []
   denote pt ctx.scope ctx.mm ctx.cm
 
+def sumList : List Rat → Rat
+  | [] => 0
+  | x :: xs => x + sumList xs
+
+/-- `ForLoopPulseTemplate.duration`: `Piecewise((0, step_count <= 0), (Sum(body(start + i*step),
+(i, 0, Max(step_count, 1) - 1)), True))` with `step_count = ceiling((stop - start) / step)`; `g v` is the
+body duration with the loop index bound to `v` -/
+def forLoopClosedForm (g : Rat → Except Err Rat) (a b s : Rat) : Except Err Rat :=
+  if s = 0 then .error .zeroDivision else
+  let stepCount : Int := ((b - a) / s).ceil
+  if stepCount ≤ 0 then pure 0 else do
+    let ds ← (List.range (max stepCount 1).toNat).mapM (fun (k : Nat) => g (a + (k : Rat) * s))
+    pure (sumList ds)
+
 mutual
 /-- the value of the class' symbolic `duration` expression in a scope -/
 def templateDuration : PT → Scope → Except Err Rat
@@ -1500,12 +1530,7 @@ def templateDuration : PT → Scope → Except Err Rat
       let a ← σ.eval start
       let b ← σ.eval stop
       let s ← σ.eval step
-      if s = 0 then .error .zeroDivision else
-      let stepCount : Int := ((b - a) / s).ceil
-      if stepCount ≤ 0 then pure 0 else do
-        let ds ← (List.range stepCount.toNat).mapM (fun (k : Nat) =>
-          templateDuration body (.range σ idx (a + (k : Rat) * s)))
-        pure (ds.foldl (· + ·) 0)
+      forLoopClosedForm (fun v => templateDuration body (.range σ idx v)) a b s
   | .mapping _ body pm _ _ _, σ => templateDuration body (.mapped σ pm)
   | .parallel _ body _, σ => templateDuration body σ
   | .atomicMulti _ subs dur _ _, σ => match dur with
